@@ -170,3 +170,64 @@ def fixture_ops(kind, path, nextract=6, params=()):
         return lines + [f"open i0 {nm}", "extract i0 h0 - out", "close i0 h0", "destroy i0"]
     lines += [f"open i0 {nm}"] + [f"extract i0 h0 {j} o{j}" for j in range(nextract)] + ["close i0 h0", "destroy i0"]
     return lines
+
+# ------------------------------------------------------------------ directed CHM constructions
+
+def chm_e8_multi_interval(rng, intervals=3, rframes=2, wb=16):
+    """a well-formed CHM whose LZX stream has Intel E8 translation switched on and spans several
+    reset intervals, with E8 call sites in every interval; members: one at the start, one in the
+    last interval.  (Sequential decoding and decoding from a reset point must give the same bytes.)"""
+    import struct
+    from vgen import chm, lzx, lz
+    FRAME = 32768
+    rb = rframes * FRAME; n = intervals * rb
+    body = bytearray(rng.choice(b"abcdefgh \n") for _ in range(n))
+    for p in range(100, n - 10, 211):
+        body[p] = 0xE8
+        struct.pack_into("<i", body, p + 1, rng.choice([0x1388, 0x10, 70000, -50, 0x20000, 5]))
+    data = bytes(body)
+    filesize = 0x00100000
+    raw = lzx.e8_encode(data, filesize)
+    toks = lz.greedy_tokens(raw, lzx.max_offset(wb), 2, 257, frame=FRAME, reset=rb, rng=rng)
+    frames, tot, info = lzx.lzx_frames(toks, wb, intel_filesize=filesize, reset_interval=rframes, rng=rng)
+    offs = [0]
+    for fr in frames: offs.append(offs[-1] + len(fr))
+    content = b"".join(frames)
+    sysfiles = [(chm.CONTENT, content), (chm.CONTROL, chm.control_data(2, rframes, wb)), (chm.SPANINFO, struct.pack("<Q", n)),
+                (chm.RTABLE, chm.reset_table(offs[:-1], n, offs[-1], 8))]
+    members = [{"name": b"/a.bin", "section": 1, "offset": 0, "data": data[:10]},
+               {"name": b"/b.bin", "section": 1, "offset": (intervals - 1) * rb, "data": data[(intervals - 1) * rb:(intervals - 1) * rb + 1000]},
+               {"name": b"/c.bin", "section": 1, "offset": rb + 5, "data": data[rb + 5:rb + 405]}]
+    s0 = bytearray(); entries = []
+    for nm, d in sysfiles:
+        entries.append((nm, 0, len(s0), len(d))); s0 += d
+    entries += [(m["name"], 1, m["offset"], len(m["data"])) for m in members]
+    f, fields = chm.build(entries, bytes(s0), version=3, chunk_size=4096, density=2)
+    members.sort(key=lambda m: chm.sort_key(m["name"]))
+    return {"kind": "chm", "files": {"f.chm": f}, "members": members,
+            "meta": {"order": ["f.chm"], "directed": "e8-multi-interval", "expect": {"header": fields, "sysfiles": [x for x, _ in sysfiles]}}}
+
+def chm_member_at_padded_end(rng, rframes=2, wb=16, last_entry_zero=False):
+    """a CHM whose directory declares a 5-byte member starting exactly at the (padded) end of the
+    LZX stream, with a reset-table entry for that frame: nothing can be extracted for it, so a
+    success status would be wrong"""
+    import struct
+    from vgen import chm, lzx, lz
+    FRAME = 32768
+    rb = rframes * FRAME; n = 3 * rb
+    data = bytes(rng.choice(b"abcdefgh \n") for _ in range(n))
+    toks = lz.greedy_tokens(data, lzx.max_offset(wb), 2, 257, frame=FRAME, reset=rb, rng=rng)
+    frames, tot, info = lzx.lzx_frames(toks, wb, reset_interval=rframes, rng=rng)
+    offs = [0]
+    for fr in frames: offs.append(offs[-1] + len(fr))
+    content = b"".join(frames)
+    # one entry more than there are frames: the frame that would start at the end of the stream
+    rt = chm.reset_table(offs[:-1] + [0] if last_entry_zero else offs, n, offs[-1], 8)
+    sysfiles = [(chm.CONTENT, content), (chm.CONTROL, chm.control_data(2, rframes, wb)), (chm.SPANINFO, struct.pack("<Q", n)), (chm.RTABLE, rt)]
+    s0 = bytearray(); entries = []
+    for nm, d in sysfiles:
+        entries.append((nm, 0, len(s0), len(d))); s0 += d
+    entries += [(b"/ok.bin", 1, 0, 10), (b"/past-end.bin", 1, n, 5)]
+    f, fields = chm.build(entries, bytes(s0), version=3, chunk_size=4096, density=2)
+    return {"kind": "chm", "files": {"f.chm": f}, "members": [{"name": b"/ok.bin", "section": 1, "offset": 0, "data": data[:10]}],
+            "meta": {"order": ["f.chm"], "directed": "member-at-padded-end"}}
